@@ -77,9 +77,11 @@ class PacketzQueue(JSONBase):
         return os.fstat(q.fileno()).st_nlink > 0
 
     def _ensure_open(self) -> IO[str]:
+        # NOTE: a record cut inside a character, or corrupted bytes, must not fail the read of the records before it
         q = self.path.open(
             "rt",
             encoding="utf-8",
+            errors="replace",
             buffering=1024 * 256,
         )
         assert self._queue_healthy(q)
